@@ -170,16 +170,17 @@ def splitOff (v : Vec) (i : Nat) : Res (Vec × Vec) :=
 /-- trait default `insert` -/
 def insert (v : Vec) (i : Nat) (x : AnyBv) : Res Vec :=
   (splitOff v i).bind fun p => (append p.1 x).bind fun v1 => append v1 p.2.any
-/-- `Extend<Bit>`: `Bvd`/`Bv` reserve `size_hint().0` first, then push one by one -/
-def extend (v : Vec) (bits : List Bool) : Res Vec :=
+/-- `Extend<Bit>`: `Bvd`/`Bv` reserve `size_hint().0` (= `hint`: whatever lower bound the iterator reports, the exact
+length for exact-size iterators) first, then push one by one -/
+def extend (v : Vec) (bits : List Bool) (hint : Nat := bits.length) : Res Vec :=
   let v0 : Vec := match v with
     | .f _ _ => v
-    | .d r => .d (Bvd.reserve r bits.length)
-    | .a s => .a (Bv.reserve s bits.length)
+    | .d r => .d (Bvd.reserve r hint)
+    | .a s => .a (Bv.reserve s hint)
   bits.foldl (fun acc b => acc.bind fun v => push v b) (.ok v0)
 /-- `FromIterator<Bit>`: `with_capacity(size_hint().0)` then push -/
-def collect (t : Ty) (bits : List Bool) : Res Vec :=
-  (withCapacity t bits.length).bind fun v => bits.foldl (fun acc b => acc.bind fun v => push v b) (.ok v)
+def collect (t : Ty) (bits : List Bool) (hint : Nat := bits.length) : Res Vec :=
+  (withCapacity t hint).bind fun v => bits.foldl (fun acc b => acc.bind fun v => push v b) (.ok v)
 def first (v : Vec) : Option Bool := if v.len > 0 then some (get v 0) else none
 def last (v : Vec) : Option Bool := if v.len > 0 then some (get v (v.len - 1)) else none
 def shlIn (v : Vec) (b : Bool) : Vec × Bool :=
@@ -237,6 +238,44 @@ def digits (v : Vec) (kind : Char) : List Char :=
     | .f _ r => Bvf.decDigits r
     | .d r => Bvd.decDigits r
     | .a s => s.decDigits
+/-- the formatting options of a `{…}` placeholder that matter for integers -/
+structure FmtSpec where
+  fill : Char := ' '
+  align : Nat := 0          -- 0 none, 1 left `<`, 2 right `>`, 3 center `^`
+  plus : Bool := false      -- `+`
+  alt : Bool := false       -- `#`
+  zero : Bool := false      -- `0`
+  width : Option Nat := none
+deriving Repr
+
+/-- `Formatter::pad_integral(true, prefix, digits)` (std; modelled from its source, trusted base) -/
+def padIntegral (sp : FmtSpec) (pre digits : List Char) : List Char :=
+  let sign : List Char := if sp.plus then ['+'] else []
+  let pfx : List Char := if sp.alt then pre else []
+  let head := sign ++ pfx
+  let width := digits.length + head.length
+  match sp.width with
+  | none => head ++ digits
+  | some min =>
+    if width ≥ min then head ++ digits
+    else if sp.zero then head ++ List.replicate (min - width) '0' ++ digits
+    else
+      let pad := min - width
+      let al := if sp.align = 0 then 2 else sp.align
+      let (a, b) : Nat × Nat := if al = 1 then (0, pad) else if al = 3 then (pad / 2, (pad + 1) / 2) else (pad, 0)
+      List.replicate a sp.fill ++ head ++ digits ++ List.replicate b sp.fill
+
+def fmtPrefix (kind : Char) : List Char :=
+  match kind with
+  | 'b' => ['0', 'b']
+  | 'o' => ['0', 'o']
+  | 'x' => ['0', 'x']
+  | 'X' => ['0', 'x']
+  | _ => []
+
+/-- `format!("{:<spec><kind>}", v)` -/
+def format (v : Vec) (kind : Char) (sp : FmtSpec) : List Char := padIntegral sp (fmtPrefix kind) (digits v kind)
+
 def iterRun (v : Vec) (rev : Bool) (calls : List IterCall) : List IterOut :=
   IterSt.run (get v) rev (IterSt.new v.len) calls
 
